@@ -249,7 +249,9 @@ func (p *parser) parseExpression(rbp int) Node {
 	}
 
 	t := p.token
-	p.advance(false)
+	// An operand follows a parenthesis or a bracket that opens
+	// an expression: a slash there starts a regular expression.
+	p.advance(t.Type == typeParenOpen || t.Type == typeBracketOpen)
 
 	nud := p.lookupNud(t.Type)
 	if nud == nil {
